@@ -3,6 +3,7 @@ package c41
 import (
 	"fmt"
 	"regexp"
+	"sort"
 	"strconv"
 	"strings"
 	"unicode/utf8"
@@ -93,8 +94,180 @@ func contractOK(srcLen int, field string) string {
 	return ""
 }
 
+// ---- an independent reading of replacement templates --------------------------------------------
+//
+// The grammar of lean/ElvModel/C41/Template.lean as ONE leftmost-first regular expression:
+// "$$", "${name}", "$name" (greedy = longest name), a raw "$", text without "$".  Written from
+// the documentation of Regexp.Expand, not from its code.
+var tmplTokRe = regexp.MustCompile(`\$\$|\$\{[\p{L}\p{Nd}_]+\}|\$[\p{L}\p{Nd}_]+|\$|[^$]+`)
+
+// refNumber: is the name a group number?  Decimal ASCII digits, no leading zero, at most nine digits.
+func refNumber(name string) (int, bool) {
+	if len(name) > 9 || (len(name) > 1 && name[0] == '0') {
+		return 0, false
+	}
+	n := 0
+	for i := 0; i < len(name); i++ {
+		if name[i] < '0' || name[i] > '9' {
+			return 0, false
+		}
+		n = n*10 + int(name[i]-'0')
+	}
+	return n, true
+}
+
+// tmplKinds lists the kinds of tokens of a template (for tags).
+func tmplKinds(t string) string {
+	seen := map[string]bool{}
+	for _, tok := range tmplTokRe.FindAllString(t, -1) {
+		switch {
+		case tok == "$$":
+			seen["dollar"] = true
+		case tok == "$":
+			seen["raw"] = true
+		case tok[0] != '$':
+			seen["text"] = true
+		default:
+			name := strings.TrimSuffix(strings.TrimPrefix(strings.TrimPrefix(tok, "$"), "{"), "}")
+			k := "name"
+			if _, ok := refNumber(name); ok {
+				k = "num"
+			}
+			if tok[1] == '{' {
+				k += "-braced"
+			}
+			seen[k] = true
+		}
+	}
+	var ks []string
+	for k := range seen {
+		ks = append(ks, k)
+	}
+	sort.Strings(ks)
+	return strings.Join(ks, ",")
+}
+
+// expandByGrammar: the replacement for one match, token by token.
+func expandByGrammar(t, src string, m []int, names []string) string {
+	var sb strings.Builder
+	group := func(k int) (string, bool) {
+		if 2*k+1 < len(m) && m[2*k] >= 0 {
+			return src[m[2*k]:m[2*k+1]], true
+		}
+		return "", false
+	}
+	for _, tok := range tmplTokRe.FindAllString(t, -1) {
+		switch {
+		case tok == "$$" || tok == "$":
+			sb.WriteByte('$')
+		case tok[0] != '$':
+			sb.WriteString(tok)
+		default:
+			name := strings.TrimPrefix(tok, "$")
+			if name[0] == '{' {
+				name = name[1 : len(name)-1]
+			}
+			if k, ok := refNumber(name); ok {
+				g, _ := group(k)
+				sb.WriteString(g)
+				continue
+			}
+			for i, ni := range names {
+				if ni == name {
+					if g, ok := group(i); ok {
+						sb.WriteString(g)
+						break
+					}
+				}
+			}
+		}
+	}
+	return sb.String()
+}
+
+// ---- re:awk, from the positions re:find would report ------------------------------------------------
+
+func awkFlow(cb string, args []string) string { // ok | cont | brk | fail
+	switch cb {
+	case "put":
+		return "ok"
+	case "cont":
+		return "cont"
+	case "mix":
+		if len(args) > 1 {
+			switch args[1] {
+			case "x":
+				return "brk"
+			case "c":
+				return "fail"
+			case "a":
+				return "cont"
+			}
+		}
+		return "ok"
+	}
+	return "fail"
+}
+
+func oracleAwk(f []string, out string) (string, string) {
+	sep, cb := common.Unhex(f[2]), f[3]
+	re, err := compileLike(sep, f[1])
+	if err != nil {
+		if out != "EXC bad-pattern" {
+			return fail("re-bad-pattern", "re:awk &sep=%q: %s", sep, out)
+		}
+		return "", ""
+	}
+	if f[6] != "-" {
+		k := 0
+		for _, it := range strings.Split(f[4], "|") {
+			if it[0] != 's' {
+				continue
+			}
+			t := naiveTrimRight(naiveTrimLeft(common.Unhex(it[1:]), runeSet(" \t")), runeSet(" \t"))
+			if why := contractOK(len(t), strings.Split(f[6], "|")[k]); why != "" {
+				return fail("engine-contract", "Go's match list violates the contract assumed by the theorems: %s", why)
+			}
+			k++
+		}
+	}
+	want := []string{"AWK"}
+	end := "OK"
+	if f[4] != "-" {
+	items:
+		for _, it := range strings.Split(f[4], "|") {
+			if it[0] != 's' {
+				end = "EXC other:input of re:awk must be string"
+				break
+			}
+			line := common.Unhex(it[1:])
+			t := naiveTrimRight(naiveTrimLeft(line, runeSet(" \t")), runeSet(" \t"))
+			args := append([]string{line}, refSplit(t, re.FindAllStringIndex(t, -1), -1, sep == "")...)
+			hs := make([]string, len(args))
+			for i, a := range args {
+				hs[i] = common.Hex(a)
+			}
+			want = append(want, "c:"+strings.Join(hs, ","))
+			switch awkFlow(cb, args) {
+			case "brk":
+				break items
+			case "fail":
+				end = "EXC fail"
+				break items
+			}
+		}
+	}
+	if w := strings.Join(want, " ") + " " + end; out != w {
+		return fail("awk-vs-find", "re:awk%s &sep=%q %s %s: %s; from the find positions: %s", flagOpts(f[1]), sep, cb, f[4], out, w)
+	}
+	return "", ""
+}
+
 func oracleRe(f []string, o outcome, out string) (string, string) {
 	u := common.Unhex
+	if f[0] == "awk" {
+		return oracleAwk(f, out)
+	}
 	if idx, srcIdx := map[string]int{"find": 6, "resplit": 6, "rematch": 5, "rereplace": 7}[f[0]], map[string]int{"find": 4, "resplit": 4, "rematch": 3, "rereplace": 5}[f[0]]; idx > 0 {
 		if why := contractOK(len(u(f[srcIdx])), f[idx]); why != "" {
 			return fail("engine-contract", "Go's match list violates the contract assumed by the theorems: %s", why)
@@ -233,6 +406,20 @@ func oracleRe(f []string, o outcome, out string) (string, string) {
 		if out != want {
 			return fail("replace-vs-find", "re:replace%s %q %s:%q %q: %s; from the find positions: %s", flagOpts(f[1]), pat, kind, u2(kind, repl), src, out, want)
 		}
+		if kind == "s" && !literal {
+			// the same, with the template read by the grammar instead of by Regexp.Expand
+			var sg strings.Builder
+			last := 0
+			for _, m := range re.FindAllStringSubmatchIndex(src, -1) {
+				sg.WriteString(src[last:m[0]])
+				last = m[1]
+				sg.WriteString(expandByGrammar(u(repl), src, m, re.SubexpNames()))
+			}
+			sg.WriteString(src[last:])
+			if w := "OK " + sTok(sg.String()); out != w {
+				return fail("template-reading", "re:replace %q %q %q: %s; by the template grammar: %s", pat, u(repl), src, out, w)
+			}
+		}
 	}
 	return "", ""
 }
@@ -253,6 +440,34 @@ func tag(f []string, out string) string {
 		return f[0] + ":" + strings.ToLower(out)
 	}
 	switch f[0] {
+	case "reset":
+		if len(f) > 1 {
+			return "history:group-start"
+		}
+		return ""
+	case "awk":
+		switch {
+		case out == "EXC bad-pattern":
+			return "awk:bad-pattern"
+		case f[4] == "-":
+			return "awk:no-input"
+		}
+		t := "awk:" + f[3]
+		switch {
+		case strings.HasSuffix(out, "EXC other:input of re:awk must be string"):
+			t += "+non-string-input"
+		case strings.HasSuffix(out, "EXC fail"):
+			t += "+callback-failed"
+		case strings.Count(out, " c:") < len(strings.Split(f[4], "|")):
+			t += "+break"
+		}
+		if strings.Contains(out, ",-,") || strings.HasSuffix(strings.TrimSuffix(out, " OK"), ",-") {
+			t += "+empty-field"
+		}
+		if strings.Contains(f[1], "g") || strings.Contains(f[1], "p") {
+			t += "+longest"
+		}
+		return t
 	case "split", "splitjoin":
 		max, _ := strconv.Atoi(f[1])
 		sep, s := u(f[2]), u(f[3])
@@ -303,6 +518,10 @@ func tag(f []string, out string) string {
 		switch {
 		case strings.HasPrefix(out, "EXC BV|n|non-negative"):
 			return "repeat:negative"
+		case strings.HasPrefix(out, "EXC BV|n|small enough for the result"):
+			return "repeat:above-cap-rejected"
+		case out == "UNCAPPED-NOT-RUN":
+			return "repeat:uncapped-not-run"
 		case exc:
 			return "repeat:overflow-rejected"
 		case f[2] == "0" || f[2] == "1" || f[1] == "-":
@@ -407,16 +626,7 @@ func tag(f []string, out string) string {
 		case strings.Contains(f[1], "l"):
 			return "rereplace:literal"
 		}
-		t := u(f[4])
-		switch {
-		case !strings.Contains(t, "$"):
-			return "rereplace:template-plain"
-		case strings.Contains(t, "${n}") || strings.Contains(t, "$n") || strings.Contains(t, "${w}"):
-			return "rereplace:template-named"
-		case strings.Contains(t, "$$"):
-			return "rereplace:template-dollar"
-		}
-		return "rereplace:template-numbered"
+		return "rereplace:template[" + tmplKinds(u(f[4])) + "]"
 	}
 	if binOps[f[0]] {
 		switch {
